@@ -31,12 +31,12 @@ import (
 // the helper's objects). go/ssa is built from the unmodified trees first. On the reference tree there is no new
 // function and this pass does nothing.
 type inlineState struct {
-	p        *Prog
-	isNew    map[*types.Func]*FuncInfo
-	tailOnly map[*types.Func]bool // helpers with defer / recover: inlined only where their return is the caller's return
-	quasiTail bool                // the statement being processed is followed only by a return of plain names
-	n        int
-	notes    []string
+	p         *Prog
+	isNew     map[*types.Func]*FuncInfo
+	tailOnly  map[*types.Func]bool // helpers with defer / recover: inlined only where their return is the caller's return
+	quasiTail bool                 // the statement being processed is followed only by a return of plain names
+	n         int
+	notes     []string
 }
 
 func (p *Prog) applyInlining() {
@@ -211,13 +211,46 @@ func (st *inlineState) tailBody(pk *packagesPkg, call *ast.CallExpr, h *FuncInfo
 	mapping := map[ast.Node]ast.Node{}
 	body := cloneNode(h.Decl.Body, mapping).(*ast.BlockStmt)
 	copyInfo(info, mapping)
+	delta := st.shift(h)
+	shiftPos(reflect.ValueOf(body), delta)
+	fresh := freshenLocals(pk, body, sigObjs(info, h), delta)
+	freshSet := map[types.Object]bool{}
+	for _, nv := range fresh {
+		freshSet[nv] = true
+	}
+	for nv := range freshSet {
+		inlineFresh[nv] = true
+	}
+	for _, nn := range mapping {
+		inlinedNodes[nn] = true
+	}
+	lastFresh = freshSet
+	lastParams = map[types.Object]bool{}
+	addP := func(fl *ast.FieldList) {
+		if fl == nil {
+			return
+		}
+		for _, f := range fl.List {
+			for _, nm := range f.Names {
+				if o := info.Defs[nm]; o != nil && fresh[o] != nil {
+					lastParams[fresh[o]] = true
+				}
+			}
+		}
+	}
+	addP(h.Decl.Recv)
+	addP(h.Decl.Type.Params)
 	var pre []ast.Stmt
 	bind := func(names []*ast.Ident, arg ast.Expr) {
 		if len(names) == 0 || names[0].Name == "_" {
 			return
 		}
-		obj := info.Defs[names[0]]
-		if obj != nil && pureExpr(arg) && !assignedOrAddressed(info, h.Decl.Body, obj) {
+		orig := info.Defs[names[0]]
+		obj := orig
+		if f := fresh[orig]; f != nil {
+			obj = f
+		}
+		if obj != nil && pureExpr(arg) && !assignedOrAddressed(info, h.Decl.Body, orig) {
 			substituteObj(info, body, obj, arg)
 			return
 		}
@@ -609,6 +642,35 @@ func (st *inlineState) instantiate(pk *packagesPkg, call *ast.CallExpr, h *FuncI
 	mapping := map[ast.Node]ast.Node{}
 	body := cloneNode(h.Decl.Body, mapping).(*ast.BlockStmt)
 	copyInfo(info, mapping)
+	delta := st.shift(h)
+	shiftPos(reflect.ValueOf(body), delta)
+	fresh := freshenLocals(pk, body, sigObjs(info, h), delta)
+	freshSet := map[types.Object]bool{}
+	for _, nv := range fresh {
+		freshSet[nv] = true
+	}
+	for nv := range freshSet {
+		inlineFresh[nv] = true
+	}
+	for _, nn := range mapping {
+		inlinedNodes[nn] = true
+	}
+	lastFresh = freshSet
+	lastParams = map[types.Object]bool{}
+	addP := func(fl *ast.FieldList) {
+		if fl == nil {
+			return
+		}
+		for _, f := range fl.List {
+			for _, nm := range f.Names {
+				if o := info.Defs[nm]; o != nil && fresh[o] != nil {
+					lastParams[fresh[o]] = true
+				}
+			}
+		}
+	}
+	addP(h.Decl.Recv)
+	addP(h.Decl.Type.Params)
 	// nested helpers inside the copy
 	st.funcBody(pk, body, append(append([]*types.Func{}, stack...), h.Obj))
 
@@ -620,10 +682,14 @@ func (st *inlineState) instantiate(pk *packagesPkg, call *ast.CallExpr, h *FuncI
 			}
 			return
 		}
-		obj := info.Defs[names[0]]
+		orig := info.Defs[names[0]]
+		obj := orig
+		if f := fresh[orig]; f != nil {
+			obj = f
+		}
 		// a parameter that the helper never assigns and whose argument is a plain name / selector / address stands for
 		// that argument: the copy then speaks about the caller's own objects
-		if obj != nil && pureExpr(arg) && !assignedOrAddressed(info, h.Decl.Body, obj) {
+		if obj != nil && pureExpr(arg) && !assignedOrAddressed(info, h.Decl.Body, orig) {
 			substituteObj(info, body, obj, arg)
 			return
 		}
@@ -659,6 +725,9 @@ func (st *inlineState) instantiate(pk *packagesPkg, call *ast.CallExpr, h *FuncI
 			}
 			for _, nm := range fld.Names {
 				if o := info.Defs[nm]; o != nil && nm.Name != "_" {
+					if f := fresh[o]; f != nil {
+						o = f
+					}
 					resObjs = append(resObjs, o)
 				} else {
 					resObjs = append(resObjs, types.NewVar(pos, pk.Types, fmt.Sprintf("_inl%d_r%d", n, j), sig.Results().At(j).Type()))
@@ -700,7 +769,7 @@ func (st *inlineState) instantiate(pk *packagesPkg, call *ast.CallExpr, h *FuncI
 					continue
 				}
 				y, isVar := info.Uses[id].(*types.Var)
-				if !isVar || y.IsField() || !posIn(h.Decl.Body, y.Pos()) {
+				if !isVar || y.IsField() || !freshSet[y] || isSigObj(info, h, fresh, y) {
 					bad[j] = true
 					continue
 				}
@@ -818,12 +887,45 @@ func (st *inlineState) asLiteralCall(pk *packagesPkg, call *ast.CallExpr, h *Fun
 	mapping := map[ast.Node]ast.Node{}
 	body := cloneNode(h.Decl.Body, mapping).(*ast.BlockStmt)
 	copyInfo(info, mapping)
+	delta := st.shift(h)
+	shiftPos(reflect.ValueOf(body), delta)
+	fresh := freshenLocals(pk, body, sigObjs(info, h), delta)
+	freshSet := map[types.Object]bool{}
+	for _, nv := range fresh {
+		freshSet[nv] = true
+	}
+	for nv := range freshSet {
+		inlineFresh[nv] = true
+	}
+	for _, nn := range mapping {
+		inlinedNodes[nn] = true
+	}
+	lastFresh = freshSet
+	lastParams = map[types.Object]bool{}
+	addP := func(fl *ast.FieldList) {
+		if fl == nil {
+			return
+		}
+		for _, f := range fl.List {
+			for _, nm := range f.Names {
+				if o := info.Defs[nm]; o != nil && fresh[o] != nil {
+					lastParams[fresh[o]] = true
+				}
+			}
+		}
+	}
+	addP(h.Decl.Recv)
+	addP(h.Decl.Type.Params)
 	var pre []ast.Stmt
 	bind := func(names []*ast.Ident, arg ast.Expr) {
 		if len(names) == 0 || names[0].Name == "_" {
 			return
 		}
-		id := st.newIdent(pk, names[0].Name, pos, info.Defs[names[0]], true)
+		po := info.Defs[names[0]]
+		if f := fresh[po]; f != nil {
+			po = f
+		}
+		id := st.newIdent(pk, names[0].Name, pos, po, true)
 		pre = append(pre, &ast.AssignStmt{Lhs: []ast.Expr{id}, TokPos: pos, Tok: token.DEFINE, Rhs: []ast.Expr{arg}})
 	}
 	if h.Decl.Recv != nil && len(h.Decl.Recv.List) == 1 {
@@ -1069,13 +1171,7 @@ func unifyResults(info *types.Info, as *ast.AssignStmt, results []ast.Expr, help
 			return false
 		}
 		y, isVar := info.Uses[yid].(*types.Var)
-		named := false
-		if res := helper.Obj.Type().(*types.Signature).Results(); res != nil {
-			for j := 0; j < res.Len(); j++ {
-				named = named || res.At(j) == y
-			}
-		}
-		if !isVar || y.IsField() || !(posIn(helper.Decl.Body, y.Pos()) || named) || seen[y] {
+		if !isVar || y.IsField() || !lastFresh[y] || lastParams[y] || seen[y] {
 			return false // not a local of the helper body (parameter, named result declared in the signature, global)
 		}
 		seen[y] = true
@@ -1127,7 +1223,6 @@ func initOf(s ast.Stmt) ast.Stmt {
 	return nil
 }
 
-
 // callsNew: the body contains a call of a new helper.
 func (st *inlineState) callsNew(pk *packagesPkg, body ast.Node) bool {
 	found := false
@@ -1141,7 +1236,6 @@ func (st *inlineState) callsNew(pk *packagesPkg, body ast.Node) bool {
 	})
 	return found
 }
-
 
 var posType = reflect.TypeOf(token.NoPos)
 
@@ -1172,3 +1266,136 @@ func setPos(v reflect.Value, pos token.Pos) {
 		}
 	}
 }
+
+// freshenLocals gives the variables DECLARED inside a cloned body (and the given parameter / result objects) new
+// objects of their own, so that two copies of the same helper in one caller do not share variables (rules that look
+// up "the definition of x" by object would otherwise see the definitions of both copies). Returns old→new.
+func freshenLocals(pk *packagesPkg, body ast.Node, extra []types.Object, delta token.Pos) map[types.Object]types.Object {
+	info := pk.TypesInfo
+	m := map[types.Object]types.Object{}
+	mk := func(o types.Object) {
+		v, ok := o.(*types.Var)
+		if !ok || v.IsField() || m[o] != nil {
+			return
+		}
+		m[o] = types.NewVar(v.Pos()+delta, v.Pkg(), v.Name(), v.Type())
+	}
+	for _, o := range extra {
+		if o != nil {
+			mk(o)
+		}
+	}
+	ast.Inspect(body, func(n ast.Node) bool {
+		if id, ok := n.(*ast.Ident); ok {
+			if o := info.Defs[id]; o != nil {
+				mk(o)
+			}
+		}
+		return true
+	})
+	ast.Inspect(body, func(n ast.Node) bool {
+		switch x := n.(type) {
+		case *ast.Ident:
+			if o := info.Defs[x]; o != nil && m[o] != nil {
+				info.Defs[x] = m[o]
+			}
+			if o := info.Uses[x]; o != nil && m[o] != nil {
+				info.Uses[x] = m[o]
+			}
+		case *ast.CaseClause:
+			if o := info.Implicits[x]; o != nil {
+				if m[o] == nil {
+					mk(o)
+				}
+				if m[o] != nil {
+					info.Implicits[x] = m[o]
+				}
+			}
+		}
+		return true
+	})
+	// implicit objects of type-switch clauses are used by identifiers visited before the clause was seen
+	ast.Inspect(body, func(n ast.Node) bool {
+		if x, ok := n.(*ast.Ident); ok {
+			if o := info.Uses[x]; o != nil && m[o] != nil {
+				info.Uses[x] = m[o]
+			}
+		}
+		return true
+	})
+	return m
+}
+
+// sigObjs: receiver, parameter and named result objects of a helper.
+func sigObjs(info *types.Info, h *FuncInfo) []types.Object {
+	var out []types.Object
+	add := func(fl *ast.FieldList) {
+		if fl == nil {
+			return
+		}
+		for _, f := range fl.List {
+			for _, nm := range f.Names {
+				if o := info.Defs[nm]; o != nil {
+					out = append(out, o)
+				}
+			}
+		}
+	}
+	add(h.Decl.Recv)
+	add(h.Decl.Type.Params)
+	add(h.Decl.Type.Results)
+	return out
+}
+
+// shift registers a fresh copy of the helper's source file in the file set and returns the distance to it: every
+// inlined copy gets positions of its own (same file name and lines when printed), so that position-based look-ups
+// (Flow.PtOf, fact keys that carry declaration positions) tell two copies of one helper apart.
+func (st *inlineState) shift(h *FuncInfo) token.Pos {
+	of := st.p.Fset.File(h.Decl.Pos())
+	if of == nil {
+		return 0
+	}
+	nf := st.p.Fset.AddFile(of.Name(), -1, of.Size())
+	nf.SetLines(of.Lines())
+	return token.Pos(nf.Base() - of.Base())
+}
+
+func shiftPos(v reflect.Value, delta token.Pos) {
+	switch v.Kind() {
+	case reflect.Interface, reflect.Ptr:
+		if !v.IsNil() {
+			if v.Kind() == reflect.Ptr && (v.Type() == objPtrType || v.Type() == scopePtrType) {
+				return
+			}
+			shiftPos(v.Elem(), delta)
+		}
+	case reflect.Slice:
+		for i := 0; i < v.Len(); i++ {
+			shiftPos(v.Index(i), delta)
+		}
+	case reflect.Struct:
+		for i := 0; i < v.NumField(); i++ {
+			f := v.Field(i)
+			if f.Type() == posType {
+				if f.CanSet() && f.Int() != 0 {
+					f.SetInt(f.Int() + int64(delta))
+				}
+				continue
+			}
+			shiftPos(f, delta)
+		}
+	}
+}
+
+// isSigObj: y is the fresh copy of a parameter / receiver / named result of h.
+func isSigObj(info *types.Info, h *FuncInfo, fresh map[types.Object]types.Object, y types.Object) bool {
+	for _, o := range sigObjs(info, h) {
+		if fresh[o] == y {
+			return true
+		}
+	}
+	return false
+}
+
+// the fresh objects of the copy made last (for unifyResults, which runs right after instantiate)
+var lastFresh, lastParams map[types.Object]bool
